@@ -340,4 +340,18 @@ theorem releaseAll_ok {l : List Ptr} {p : Pool} (hp : PoolPos p) (ha : AlignedL 
         · have : (id == j) = false := by simp [hij]
           simp [hij, this] at h2 h3; omega
 
+theorem delta_copyArrs (l : List (Ptr × Ptr × Nat)) (p : Pool) (hp : PoolPos p) :
+    Delta p (copyArrs p l) [] [] ∧ PoolPos (copyArrs p l) := by
+  induction l generalizing p with
+  | nil => exact ⟨Delta.refl p, hp⟩
+  | cons x rest ih =>
+    obtain ⟨d, q, n⟩ := x
+    simp only [copyArrs]
+    by_cases hdq : d = q
+    · simp only [hdq, if_true]; exact ih p hp
+    · simp only [hdq, if_false]
+      obtain ⟨h1, h2⟩ := ih (writeArr p d (readArr p q n)) (pos_writeArr p d _ hp)
+      refine ⟨?_, h2⟩
+      intro j; have := h1 j; rw [count_writeArr] at this; exact this
+
 end FeatModel.Pool
